@@ -23,13 +23,13 @@ fn file_content(name: &str, size: usize, seed: u64) -> Vec<u8> {
 
 struct Rendered { bytes: Vec<u8>, ops_len: usize, map_len: usize }
 
-fn render_case(c: &J, style: u32, seed: u64) -> Rendered {
+fn render_case(c: &J, style: u32, ws: &str, seed: u64) -> Rendered {
     // operations: {"query": ..., "variables": <tree>} or a list of them
     let reqs: Vec<J> = c["ops"]["reqs"].as_array().unwrap().iter().map(|v| {
         node("obj", "", 0, vec![json!({"key": "query", "val": node("str", "UPDOC", 0, vec![])}), json!({"key": "variables", "val": v})])
     }).collect();
     let ops = if c["ops"]["kind"] == "single" { reqs[0].clone() } else { node("list", "", 0, reqs) };
-    let ops_text = json_text(&ops, style);
+    let ops_text = json_text(&ops, style, ws);
     let map_text = if c["map"]["kind"] == "broken" { "{\"0\": [\"variables.a\"".to_string() } else {
         let mut m = serde_json::Map::new();
         for e in c["map"]["entries"].as_array().unwrap() {
@@ -107,7 +107,9 @@ fn guarded(f: impl FnOnce() -> J) -> J {
 fn run(id: usize, c: &J, seed: u64) -> J {
     let style = ((id as u64 + seed) % 4) as u32;
     let chunk = [1usize, 13, 97, 1024, 8192][((id as u64 / 4 + seed) % 5) as usize];
-    let r = render_case(c, style, seed);
+    // JSON text is whitespace-insensitive: the operations text gets leading / interior / trailing whitespace by rotation
+    let ws = ["none", "mix", "lf", "sp", "cr", "tab"][((id as u64 / 2 + seed) % 6) as usize];
+    let r = render_case(c, style, ws, seed);
     let mut opts = MultipartOptions::default();
     let (ms, mf) = (c["opts"]["maxSize"].as_u64().unwrap() as usize, c["opts"]["maxFiles"].as_u64().unwrap() as usize);
     if ms > 0 { opts = opts.max_file_size(ms); }
@@ -119,7 +121,7 @@ fn run(id: usize, c: &J, seed: u64) -> J {
         let out = guarded(|| outcome(futures_executor::block_on(receive_body(Some(ct.clone()), ChunkedReader::new(r.bytes.clone(), chunk), opts)).map(BatchRequest::Single), seed));
         if out == obs[0]["out"] { obs[0]["api"] = json!("receive_batch_body | receive_body"); } else { obs.push(json!({"api": "receive_body", "out": out})); }
     }
-    json!({"id": id, "case": c, "obs": obs, "stream_len": r.bytes.len(), "ops_len": r.ops_len, "map_len": r.map_len, "chunk": chunk, "text": preview(&r.bytes)})
+    json!({"id": id, "case": c, "obs": obs, "stream_len": r.bytes.len(), "ops_len": r.ops_len, "map_len": r.map_len, "chunk": chunk, "ws": ws, "text": preview(&r.bytes)})
 }
 
 fn main() {
